@@ -67,16 +67,24 @@ def subpixel_pcc(
             )
         )
 
-        _lshift = (shifts + _max_shifts) * upsample_factor
-        _rshift = (_max_shifts - shifts) * upsample_factor
-        power = crop_by_max_shifts(
-            power, _lshift.astype(np.int32), _rshift.astype(np.int32), backend
-        )
+        # The upsampled patch is centered at index `dftshift` (it is NOT in the FFT
+        # order), so the region allowed by `max_shifts` is a plain slice around it.
+        _lshift = ((shifts + _max_shifts) * upsample_factor).astype(np.int32)
+        _rshift = ((_max_shifts - shifts) * upsample_factor).astype(np.int32)
+        _center = int(dftshift)
+        _starts = np.array([max(_center - int(l), 0) for l in _lshift], dtype=np.float32)
+        power = power[
+            tuple(
+                slice(max(_center - int(l), 0), min(_center + int(r) + 1, s))
+                for l, r, s in zip(_lshift, _rshift, power.shape)
+            )
+        ]
 
         maxima = (
             backend.asnumpy(
                 backend.unravel_index(backend.argmax(power), power.shape)
             ).astype(np.float32)
+            + _starts
             - dftshift
         )
         shifts = shifts + maxima / upsample_factor
